@@ -434,6 +434,8 @@ _dispatch_transform_from_utf16(dispatch_data_t data, int32_t byteOrder)
 			src = (uint16_t *)(((uint8_t *)src) + skip);
 			size -= skip;
 			max = (size / 2);
+			// keep `offset + i * 2` the position of `src[i]` in the whole data
+			offset += skip;
 			skip = 0;
 		}
 
@@ -455,7 +457,7 @@ _dispatch_transform_from_utf16(dispatch_data_t data, int32_t byteOrder)
 				if (range == NULL) {
 					return (bool)false;
 				}
-				ch = _dispatch_transform_swap_to_host((uint16_t)*(uint64_t*)p,
+				ch = _dispatch_transform_swap_to_host(*(uint16_t *)p,
 						byteOrder);
 				dispatch_release(range);
 				skip += 1;
@@ -474,8 +476,8 @@ _dispatch_transform_from_utf16(dispatch_data_t data, int32_t byteOrder)
 			if ((ch >= 0xd800) && (ch <= 0xdbff)) {
 				// Surrogate pair
 				wch = ((ch - 0xd800u) << 10);
-				if (++i >= max) {
-					// Surrogate byte isn't in this block
+				if (++i >= size / 2) {
+					// Surrogate byte isn't (entirely) in this block
 					const void *p;
 					dispatch_data_t range = _dispatch_data_subrange_map(data,
 							&p, offset + (i * 2), 2);
@@ -485,7 +487,7 @@ _dispatch_transform_from_utf16(dispatch_data_t data, int32_t byteOrder)
 					ch = _dispatch_transform_swap_to_host(*(uint16_t *)p,
 							byteOrder);
 					dispatch_release(range);
-					skip += 2;
+					skip += (i * 2 < size) ? 1 : 2;
 				} else {
 					ch = _dispatch_transform_swap_to_host(src[i], byteOrder);
 				}
